@@ -1,4 +1,7 @@
 import NdnModel.NfdMgmt
+import NdnModel.NfdBytes
+import NdnModel.CodecIO
+import NdnModel.Sha256
 /-  Line protocol for the prefix-registration model (always the *repaired* configuration):
 
     `C17 sm <v2|v1> <t0> <ticks> <sleeps> <signs> <posts> <ev>;<ev>;…`
@@ -12,9 +15,22 @@ import NdnModel.NfdMgmt
 
     `C17 pr <code|~> <textHex|~> <body>`  body: `~` (absent) or `,`-separated `<field>=<val>` (`.` = no field)
        val: `u<nat>` `t<hex>` `n<hex>|<hex>…` (`n` = empty name)
-    answer: `ok <key>=<val|~>,…`  or  `err <Class>` -/
+    answer: `ok <key>=<val|~>,…`  or  `err <Class>`
+
+    byte level (model `Ndn.NfdBytes`; values in the text format of `Ndn.Codec.readValues`, SHA-256 = `Ndn.Sha256`):
+    `C17 cn <l|h> <moduleHex> <commandHex> <(16 ControlParametersValue values)>`      make_command_v2
+       answer: `ok <component hex list>` | `err <Class>`
+    `C17 ci <name hex list> <(6 Interest parameter values)> <SignatureTime> <SignatureNonce>`
+       answer: `ok W=<wire> N=<final name> C=<signer input> | ok SC=<list> SV=<hex> DC=<list> DV=<hex> PC=<0|1> VS=<0|1>`
+    `C17 lc <l|h> <moduleHex> <commandHex> <(16 values)> <timestamp> <nonce>`        make_command (legacy)
+       answer: `ok <component hex list>` | `err <Class>`
+    `C17 pre <code|~> <textHex|~> <(16 body values)|~>`                               the reply Content
+       answer: `ok <wire hex>` | `err <Class>`
+    `C17 prb <wire hex>`                                                               parse_response from bytes
+       answer: `ok <key>=<val|~>,…`  or  `err <Class>`
+    several requests on one line are separated by ` ;; `, and so are their answers -/
 namespace Ndn.Drv.C17
-open Ndn Ndn.NfdMgmt
+open Ndn Ndn.NfdMgmt Ndn.NfdBytes Ndn.Codec Ndn.Packet
 
 def parseBit (s : String) : Option Bool :=
   if s == "0" then some false else if s == "1" then some true else none
@@ -68,7 +84,14 @@ def showDVal : DVal → String
   | .text b => "t" ++ toHex b
   | .name c => "n" ++ "|".intercalate (c.map toHex)
 
-def handle (args : List String) : String :=
+def parseLoc (s : String) : Option Bool :=
+  if s == "l" then some true else if s == "h" then some false else none
+
+def showNameRes : Except PyErr (List Bytes) → String
+  | .ok n => "ok " ++ toHexList n
+  | .error e => "err " ++ e.name
+
+def handle1 (args : List String) : String :=
   match args with
   | ["sm", fe, t0, ticks, sleeps, signs, posts, evs] =>
     let fe? : Option FrontEnd := if fe == "v2" then some .v2 else if fe == "v1" then some .legacy else none
@@ -93,6 +116,58 @@ def handle (args : List String) : String :=
       | .ok d => "ok " ++ ",".intercalate (d.map fun kv => kv.1 ++ "=" ++ showDVal kv.2)
       | .error e => "err " ++ e.name
     | _, _, _ => "bad-op"
+  | ["cn", loc, m, c, cpv] =>
+    match parseLoc loc, fromHex m, fromHex c, readValues cpv with
+    | some l, some m, some c, some vs => showNameRes (commandName l m c vs)
+    | _, _, _, _ => "bad-op"
+  | ["lc", loc, m, c, cpv, ts, nonce] =>
+    match parseLoc loc, fromHex m, fromHex c, readValues cpv, ts.toNat?, nonce.toNat? with
+    | some l, some m, some c, some vs, some t, some n => showNameRes (legacyCommandName Sha256.sha256 l m c vs t n)
+    | _, _, _, _, _, _ => "bad-op"
+  | ["ci", nm, mid, time, nonce] =>
+    match fromHexList nm, readValues mid, time.toNat?, nonce.toNat? with
+    | some n, some mid, some t, some k =>
+      match commandInterestV2 Sha256.sha256 n mid t k with
+      | .error e => "err " ++ e.name
+      | .ok m =>
+        "ok W=" ++ toHex m.wire ++ " N=" ++ toHexList m.finalName ++ " C=" ++ toHex (concatB m.covered) ++ " | " ++
+        (match parseInterest m.wire with
+         | .error e => "err " ++ e.name
+         | .ok (_, p) =>
+           "ok SC=" ++ toHexList p.sigCovered ++ " SV=" ++ (match p.sigValue with | some b => toHex b | none => "~") ++
+           " DC=" ++ toHexList p.digestCovered ++ " DV=" ++ (match p.digestValue with | some b => toHex b | none => "~") ++
+           " PC=" ++ (if paramsCheck Sha256.sha256 p then "1" else "0") ++
+           " VS=" ++ (if verifyPtrs (digestScheme Sha256.sha256) p then "1" else "0"))
+    | _, _, _, _ => "bad-op"
+  | ["pre", code, text, body] =>
+    let code? : Option (Option Nat) := if code == "~" then some none else code.toNat?.map some
+    let text? : Option (Option Bytes) := if text == "~" then some none else (fromHex text).map some
+    let body? : Option (Option (List Value)) := if body == "~" then some none else (readValues body).map some
+    match code?, text?, body? with
+    | some c, some t, some b =>
+      match encodeResponse c t b with
+      | .ok w => "ok " ++ toHex w
+      | .error e => "err " ++ e.name
+    | _, _, _ => "bad-op"
+  | ["prb", hx] =>
+    match fromHex hx with
+    | some w =>
+      match parseResponse true w with
+      | .ok d => "ok " ++ ",".intercalate (d.map fun kv => kv.1 ++ "=" ++ showDVal kv.2)
+      | .error e => "err " ++ e.name
+    | none => "bad-op"
   | _ => "bad-op"
+
+/-- several questions on one line are separated by `;;` -/
+def splitQ : List String → List (List String)
+  | [] => [[]]
+  | a :: r =>
+    if a == ";;" then [] :: splitQ r
+    else match splitQ r with
+      | q :: qs => (a :: q) :: qs
+      | [] => [[a]]
+
+def handle (args : List String) : String :=
+  " ;; ".intercalate ((splitQ args).map handle1)
 
 end Ndn.Drv.C17
